@@ -1269,7 +1269,7 @@ class MindsDBParser(Parser):
         query = p.query
         query.parentheses = True
         if hasattr(p, 'id'):
-            query.alias = Identifier(parts=[p.id])
+            query.alias = Identifier.from_path_str(p.id)
         if hasattr(p, 'column_list'):
             if not isinstance(getattr(query, 'targets', None), list):
                 # (ROLLBACK) AS t (a), (SELECT .. UNION SELECT ..) AS t (a), (RETRAIN m) AS t (a)
